@@ -130,6 +130,15 @@ def run_part(prop, seed, budget):
             n += 1; distinct.add(case_hash("c7-pep604", k)); hist["pep604-unions-under-a-dynamic-conversion"] += 1
             r = _out(fn)
             if r != want: _fail(failures, "pep604-unions", "dynamic-conversion-does-not-reach-through-a-pep604-union", case=k, got=r, expected=want)
+    if prop == "C12":
+        # object_serialization of a generic class: the view serializes the selected fields and properties of a specialised value
+        from apischema.objects import object_serialization
+        src = ["from dataclasses import dataclass", "from typing import *", "T = TypeVar('T')", "", "@dataclass", f"class GV{i}(Generic[T]):", "    a: T", "    b: int = 0",
+               "    @property", "    def twice(self) -> List[T]: return [self.a, self.a]", ""]
+        GV = vars(build_module(src, f"corners7os_{seed}"))[f"GV{i}"]
+        n += 1; distinct.add(case_hash("c7-objser")); hist["object_serialization-of-a-generic-class"] += 1
+        r = _out(lambda: (lambda view: [serialize(GV[int], GV(1, 2), conversion=view), serialize(GV, GV("s"), conversion=view)])(object_serialization(GV, ["a", GV.twice])))
+        if r != ("ok", [{"a": 1, "twice": [1, 1]}, {"a": "s", "twice": ["s", "s"]}]): _fail(failures, "object-serialization-generic", "crash:" + r[1].split(":")[0] if r[0] == "crash" else "view-differs-from-the-selected-members", got=r)
     if prop == "C17":
         # a name registered for a specialisation of a user generic is the name of every spelling of that specialisation
         Bx = ns[f"Box{i}"]
